@@ -6,37 +6,38 @@ import os, sys, json, subprocess, shutil, time
 HERE = os.path.dirname(os.path.dirname(os.path.abspath(__file__)))
 REPO = os.environ.get('VERIF_REPO', '/repo')
 CACHE = os.path.join(HERE, '.cache')
+sys.path.insert(0, os.path.join(HERE, 'tools'))
 
 
 def build():
-    """Build the replay crate against the tree under check. Checks of different trees may run concurrently (seeded runs):
-    the shared crate/target directories are used under a file lock and the binary is copied to a per-tree path."""
-    import fcntl, hashlib
-    os.makedirs(CACHE, exist_ok=True)
-    tag = hashlib.sha1(os.path.realpath(REPO).encode()).hexdigest()[:10]
-    out = os.path.join(CACHE, f'verif-replay-{tag}')
-    with open(os.path.join(CACHE, 'replay.lock'), 'w') as lk:
-        fcntl.flock(lk, fcntl.LOCK_EX)
-        crate = os.path.join(CACHE, 'replay-crate')
+    """Build the replay crate against the tree under check, in crate / target directories of that tree alone
+    (see treecache.py: a shared target directory mixes up the libraries of different trees)."""
+    import fcntl, treecache
+    tag = treecache.tag(REPO)
+    crate = treecache.dir_for('replay-crate', REPO)
+    target = treecache.dir_for('replay-target', REPO)
+    with open(os.path.join(treecache.CACHE, f'replay-{tag}.lock'), 'w') as lk:
+        fcntl.flock(lk, fcntl.LOCK_EX)       # two checks of the SAME tree (e.g. C02 and C12 in parallel) share the build
         os.makedirs(os.path.join(crate, 'src'), exist_ok=True)
         toml = open(os.path.join(HERE, 'replay', 'Cargo.toml.in')).read().replace('@REPO@', REPO)
         if not os.path.exists(os.path.join(crate, 'Cargo.toml')) or open(os.path.join(crate, 'Cargo.toml')).read() != toml:
             open(os.path.join(crate, 'Cargo.toml'), 'w').write(toml)
         for f in os.listdir(os.path.join(HERE, 'replay', 'src')):
-            shutil.copy(os.path.join(HERE, 'replay', 'src', f), os.path.join(crate, 'src', f))
+            dst = os.path.join(crate, 'src', f)
+            new = open(os.path.join(HERE, 'replay', 'src', f)).read()
+            if not os.path.exists(dst) or open(dst).read() != new:
+                open(dst, 'w').write(new)
         for f in ('rust-toolchain', 'Cargo.lock'):
             src = os.path.join(REPO, f)
             if os.path.exists(src) and not (f == 'Cargo.lock' and os.path.exists(os.path.join(crate, f))):
                 shutil.copy(src, os.path.join(crate, f))
         os.makedirs(os.path.join(crate, '.cargo'), exist_ok=True)
         open(os.path.join(crate, '.cargo', 'config.toml'), 'w').write("[build]\nrustflags = ['--cfg', 'tokio_unstable']\n[net]\noffline = true\n")
-        env = dict(os.environ, CARGO_NET_OFFLINE='true', CARGO_TARGET_DIR=os.path.join(CACHE, 'replay-target'))
+        env = dict(os.environ, CARGO_NET_OFFLINE='true', CARGO_TARGET_DIR=target)
         p = subprocess.run(['cargo', 'build', '--offline', '-q'], cwd=crate, env=env, capture_output=True, text=True, timeout=3600)
         if p.returncode != 0:
             raise RuntimeError('replay crate does not build: ' + p.stderr[-1500:])
-        shutil.copy(os.path.join(CACHE, 'replay-target', 'debug', 'verif-replay'), out + '.tmp')
-        os.replace(out + '.tmp', out)
-    return out
+    return os.path.join(target, 'debug', 'verif-replay')
 
 
 def run(args, timeout=3600, env=None):
